@@ -149,6 +149,16 @@ def run_job(pid, job, seed, tier, work):
             res["infra_error"] = "an episode did not finish within its wall-clock watchdog (inconclusive, run incomplete)"
             res["exhaustive"] = False
             continue
+        if rc == 98:
+            # the livelock watchdog of the harness: the server spun (millions of actor turns) without
+            # any client-visible event - a request that never terminates although work is being done
+            line = ([l for l in err.strip().splitlines() if "EPISODE-LIVELOCK" in l] or ["?"])[-1]
+            prop = job.get("crash_property") or pid
+            res["violations"].append({"property": prop, "sig": "%s:livelock" % prop, "detail": line[:600],
+                                      "params": {"scenario": job["scenario"], "ep_seed": seed, "shard": i, "shards": shards, "cmd": " ".join(cmd)},
+                                      "history": err.splitlines()[-20:], "job": job["name"]})
+            res["exhaustive"] = False
+            continue
         if rc != 0 or not os.path.exists(out):
             sig, detail = classify_crash(err)
             if sig:
